@@ -38,8 +38,10 @@ theorem MatchG_w7m (b : Bool) (p1 : BidiClass) (cs fin sp : List BidiClass) (h :
             | nil => simp at hsh
             | cons s sp =>
               simp only [List.head?_cons, Option.some.injEq] at hsh
+              obtain ⟨hsh, hdh⟩ := hsh
               subst hsh
               rw [w7m_head]
+              exact ⟨rfl, hdh⟩
         · intro hne
           apply hnear
           rintro rfl
